@@ -445,10 +445,10 @@ func (x *explorer) sharedName(ord int) bool {
 
 type expansion struct {
 	outcomes map[string]int64
-	reports []report
-	succ    []succ
-	runs    int64
-	kinds   map[string]int64
+	reports  []report
+	succ     []succ
+	runs     int64
+	kinds    map[string]int64
 }
 
 type succ struct {
@@ -724,9 +724,9 @@ func (x *explorer) explore() {
 
 var (
 	polNone  []ctrlrun.Policy
-	pol30s   = []ctrlrun.Policy{{Timeout: "30s", MoveTo: "d1"}}                                  // below both clamps
+	pol30s   = []ctrlrun.Policy{{Timeout: "30s", MoveTo: "d1"}}                                // below both clamps
 	pol2h48h = []ctrlrun.Policy{{Timeout: "2h", MoveTo: "d1"}, {Timeout: "48h", MoveTo: "d2"}} // between / above the clamps
-	pol100y  = []ctrlrun.Policy{{Timeout: "876000h", MoveTo: "d1"}}                             // more seconds than an int32 holds
+	pol100y  = []ctrlrun.Policy{{Timeout: "876000h", MoveTo: "d1"}}                            // more seconds than an int32 holds
 )
 
 // alphabet: the cross product days × move policies × storage policies.
